@@ -1,11 +1,11 @@
 SPECIFICATION Spec
 CONSTANTS
-  NMods = 2
+  NMods = 3
   Params = {"a", "b"}
-  Intervals = {0, 1, 2, 8}
-  Slows = {2, 8, 24}
-  Durs = {0, 1, 3}
-  Horizon = 100
+  Intervals = {0, 1, 4}
+  Slows = {4, 8}
+  Durs = {0, 1}
+  Horizon = 36
 INVARIANT MainBound
 INVARIANT SlowBoundOK
 INVARIANT TurnBounded
